@@ -102,11 +102,17 @@ def firstEdit : List Sexp → Option (Nat × String)
   | .list [_, .atom sc, _, _, .str t] :: _ => sc.toNat?.map (fun n => (n, String.ofList t))
   | _ => none
 
+/-- the text after the event: `(ver k)` = 1 + index of the first event after which the document had exactly this text -/
+def verOf (dflt : Nat) (rest : List Sexp) : Nat :=
+  match tagged "ver" rest with
+  | some [.atom v] => v.toNat?.getD dflt
+  | _ => dflt
+
 def evOf (ver : Nat) : Sexp → Option Ev
-  | .list (.atom "open" :: rest) => (tagged "parse" rest).bind parseResOf |>.map (fun pr => .ev (.didOpen ver) (some pr))
+  | .list (.atom "open" :: rest) => (tagged "parse" rest).bind parseResOf |>.map (fun pr => .ev (.didOpen (verOf ver rest)) (some pr))
   | .list (.atom "change" :: rest) =>
     match tagged "edits" rest, tagged "lower" rest, (tagged "parse" rest).bind parseResOf with
-    | some eds, some [.atom lw], some pr => some (.ev (.didChange ⟨ver, firstEdit eds, lw = "true"⟩) (some pr))
+    | some eds, some [.atom lw], some pr => some (.ev (.didChange ⟨verOf ver rest, firstEdit eds, lw = "true"⟩) (some pr))
     | _, _, _ => none
   | .list [.atom "save"] => some (.ev .didSave none)
   | .list [.atom "sleep", _] => some .sleep
@@ -152,7 +158,10 @@ def histCase (id : String) (items : List Sexp) : String :=
     let parsed := (evs.zipIdx).map (fun (e, i) => evOf (i + 1) e)
     if parsed.any Option.isNone then id ++ "\tbad-input(events)\t-\t-" else
     let es : List Ev := parsed.filterMap (fun x => x)
-    let tab : List (Nat × ParseRes) := (es.zipIdx).filterMap (fun (e, i) => match e with | .ev _ (some pr) => some (i + 1, pr) | _ => none)
+    let tab : List (Nat × ParseRes) := es.filterMap (fun e => match e with
+      | .ev (.didOpen v) (some pr) => some (v, pr)
+      | .ev (.didChange c) (some pr) => some (c.ver, pr)
+      | _ => none)
     let env := mkEnv deps tab
     let (s, trace, lastpub) := (es.zipIdx).foldl (fun (acc : State Nat Nat × List String × Int) (e, i) =>
         match e with
